@@ -365,8 +365,10 @@ class NDAdapter(Adapter):
                 det["live"] = f"{key} missing"
                 continue
             v = set(view)
-            if key == "d":
-                v.discard("missed")     # the missed counter of a derived histogram is not specified
+            if key == "d" and action not in ("Transpose", "TransposeAgain"):
+                # the missed counter of a projection / selection / merge is not specified; a transposition only relabels the
+                # axes, so T keeps it (T.T == original)
+                v.discard("missed")
             try:
                 self._cmp_obj(real[key], rec, v, bad, det, key)
             except EXC as ex:
